@@ -224,7 +224,8 @@ CHECKS["C15"] = dict(
               "histories recorded on REAL three-node clusters with real gRPC client connections validated by TLC against "
               "the spec (Trace_Distro.tla)",
     text="The message-level model decides convergence for every interleaving of 3-4 operations with sync messages and "
-         "anti-entropy rounds; the cluster leg runs take-over, node-death/rejoin and seeded random scenarios on real "
+         "anti-entropy rounds; the cluster leg runs take-over, update-then-deregister within one sync batch, node-death/rejoin "
+         "and seeded random scenarios (gRPC connections and HTTP-style registrations, three weights) on real "
          "processes and compares what every live node returns after quiescence (and keeps returning) with the model.",
     note="gRPC connection-owned ephemeral instances of one service; an address is registered through one node at a time; "
          "HTTP-registered instances and heartbeat expiry are outside these scenarios (C13); quiescence = 29 s without "
@@ -237,7 +238,8 @@ CHECKS["C16"] = dict(
          "carriers is executed with OpenAPI auth on; NoDataWithoutToken and ValidTokenPasses are evaluated on all "
          "observations; gRPC leg: every registered request type (+ ServerCheck + one unregistered name) x 2 carriers x 5 token "
          "states x 7 cluster-token states sent to the real tonic services over a channel with an established bi-stream; "
-         "GrpcNoDataWithoutToken, ClusterNeedsClusterToken (+ the two 'valid passes' sanity rules) evaluated on all. "
+         "GrpcNoDataWithoutToken, ClusterNeedsClusterToken (+ the two 'valid passes' sanity rules) evaluated on all; restore "
+         "leg: a real login with a 3 s token, compaction, new process on the same directory, the expired token must be refused. "
          "TLA+ is used here as exhaustive case enumerator and requirement evaluator, not as a temporal model.",
     note="tokens are placed in the token cache directly (valid / expired); gRPC services are wired as in main.rs (the binary's "
          "own wiring is not linked); one cluster-token value; auth-off and no-cluster-token configurations are outside the property",
